@@ -387,6 +387,16 @@ func genMixedSpec(r *Rand) string {
 			}
 			stmts(2, 3)
 		}
+		if !wild && r.Chance(1, 3) {
+			// a view closing the application: the next line is the next application's header (or the end)
+			line(1, fmt.Sprintf("!view V%d(a <: int) -> int:", a))
+			line(2, "a -> (:")
+			line(3, "out = a + 1")
+			if r.Bool() {
+				line(3, "more = a * 2")
+			}
+			line(2, ")")
+		}
 	}
 	return b.String()
 }
